@@ -200,6 +200,15 @@ def search(ctx, broken, seeds):
 
 def replay(ctx, inp):
     warnings.simplefilter("ignore")
+    if inp.get("op") == "truncate-bytes":
+        from passlib import exc
+        from passlib.hash import des_crypt
+
+        try:
+            hs = des_crypt.using(truncate_error=True).hash("\u00e9" * 5)      # 5 characters, 10 bytes, limit 8 bytes
+            return {"fails": True, "observed": hs}
+        except exc.PasswordTruncateError as e:
+            return {"fails": False, "observed": "refused: " + str(e)}
     if inp.get("op") == "nul-accepted":
         h = vc.handler(inp["hasher"])
         try:
